@@ -92,7 +92,9 @@ CHECKS = {
    text="FRAGMENT (runtime containers): every dyn_array operation (new, new_with_capacity, push, pop, get, set, remove_at, clear, reserve, clone, accessors; six scalar element "
         "kinds as a case split, struct arrays per element size = bounded) and list_int operations enforced against contracts: representation invariant in and out, abstract "
         "sequence view update with ghost indices (prefix kept, suffix shifted, element placed), explicit frames, no memory fault, no overflow in the size arithmetic under "
-        "capacity <= 2^40. Operation histories follow by per-operation inductiveness. The ARC code the transpiler emits for arbitrary programs is NOT decided.",
+        "capacity <= 2^40 (list_int_insert: open). Operation histories follow by per-operation inductiveness. The emitted runtime's string builder "
+        "(nl_fmt_sb_*, cut out of what the real generator prints at check time): well-formed in and out for every fill level, terminator inside the buffer; the emitted "
+        "operator templates: no UB under the driver's flags. The ARC code the transpiler emits for arbitrary programs is NOT decided.",
    ref="DESIGN 5/C20, 10.5", note=TB + " memmove/memcpy and gc_alloc/gc_release contracts assumed; realloc-failure paths unchecked; list_int_insert and the other list_*.c files not reached.",
    tech="CBMC DFCC function contracts on the real dyn_array.c / list_int.c, case split over element kinds"),
 
